@@ -4,9 +4,10 @@
    PrefixExp/Args/ExpList/TableConstructor/Field, ops/ops.go, ast/binopexp.go),
    GV.Front.Print (printer inserting exactly the parentheses the precedence
    table requires; denotation [norm] of spellings), GV.Front.Lex (literal
-   denotations).  "evals F R" = F f = R for every sufficiently large fuel f. *)
+   denotations), GV.Front.LexStr (string literal denotations).  [parse] is the
+   extracted function, fuel 8*|ts|+8. *)
 From Coq Require Import NArith ZArith List.
-From GV Require Import Front.Token Front.Parse Front.Print Front.Proofs Front.RoundTrip Front.RoundTripMain Front.Lex Front.LexProofs.
+From GV Require Import Front.Token Front.Parse Front.Print Front.Proofs Front.RoundTrip Front.RoundTripMain Front.Exact Front.Lex Front.LexProofs Front.LexStr Front.LexStrProofs.
 Import ListNotations.
 
 (* parse ∘ print: for EVERY expression tree over all 21 binary and 4 unary
@@ -14,15 +15,18 @@ Import ListNotations.
    redundant parentheses / alternative spellings, the parser returns the
    tree's denotation.  This is precedence and associativity of every operator
    pair in every nesting at once. *)
-Theorem C12_parse_print :
-  forall e, evals (fun fuel => parse_fuel fuel (print e)) (Ok (norm e)).
-Proof. exact parse_print_evals. Qed.
+Theorem C12_parse_print : forall e, parse (print e) = Ok (norm e).
+Proof. exact parse_print. Qed.
 Print Assumptions C12_parse_print.
 
+(* [parse] (fuel 8*|ts|+8, the extracted function) never runs out of fuel *)
+Theorem C12_parse_total : forall ts, parse ts <> OutOfFuel.
+Proof. exact parse_total. Qed.
+Print Assumptions C12_parse_total.
+
 (* with the minimal parentheses only: the tree itself comes back *)
-Theorem C12_parse_print_min :
-  forall e, plain e = true -> evals (fun fuel => parse_fuel fuel (print e)) (Ok e).
-Proof. exact parse_print_min_evals. Qed.
+Theorem C12_parse_print_min : forall e, plain e = true -> parse (print e) = Ok e.
+Proof. exact parse_print_min. Qed.
 Print Assumptions C12_parse_print_min.
 
 (* the hypothesis is satisfiable, on a tree that needs parentheses *)
@@ -36,8 +40,8 @@ Proof. split; vm_compute; reflexivity. Qed.
    complete expression, is the token at which the error is reported *)
 Theorem C12_error_at_first_extra_token :
   forall e t junk, suffix_tok t = false -> binop_of t = None ->
-  evals (fun fuel => parse_fuel fuel (print e ++ t :: junk)) (Err (t :: junk)).
-Proof. exact error_at_extra_token_evals. Qed.
+  parse (print e ++ t :: junk) = Err (t :: junk).
+Proof. exact error_at_extra_token. Qed.
 Print Assumptions C12_error_at_first_extra_token.
 
 (* ast.NewBinOp's same-precedence list merging loses nothing: the merged node
@@ -47,29 +51,22 @@ Theorem C12_unflatten_new_binop : forall l op r,
 Proof. exact unflatten_new_binop. Qed.
 Print Assumptions C12_unflatten_new_binop.
 
-(* multi-valued expressions: parentheses are kept around calls … *)
+(* multi-valued expressions (manual §3.4.12): parentheses are kept around calls … *)
 Theorem C12_paren_kept_call : forall f m b args,
   norm (EParen (ECall f m b args)) = EParen (norm (ECall f m b args)).
 Proof. exact paren_kept_call. Qed.
 Print Assumptions C12_paren_kept_call.
 
-(* … dropped around single-valued expressions … *)
-Theorem C12_paren_dropped_single_valued : forall e,
-  multi_valued (norm e) = false -> norm (EParen e) = norm e.
-Proof. exact paren_dropped_single_valued. Qed.
-Print Assumptions C12_paren_dropped_single_valued.
+(* … and around '...' (repaired PrefixExp: ast.UnOp{OpId, Etc}) … *)
+Theorem C12_paren_kept_etc : norm (EParen EEtc) = EParen EEtc.
+Proof. exact paren_kept_etc. Qed.
+Print Assumptions C12_paren_kept_etc.
 
-(* … and, of the code as it stands, also dropped around '...' (defect
-   C12-paren-vararg; replayed on the Go code by the check) *)
-Theorem C12_paren_only_truncates_multivalue_refuted :
-  exists e, multi_valued (norm e) = true /\ norm (EParen e) = norm e.
-Proof. exact paren_only_truncates_multivalue_refuted. Qed.
-Print Assumptions C12_paren_only_truncates_multivalue_refuted.
-
-Theorem C12_paren_only_truncates_multivalue_partial : forall e,
-  norm e <> EEtc -> (norm (EParen e) = norm e <-> multi_valued (norm e) = false).
-Proof. exact paren_only_truncates_multivalue_partial. Qed.
-Print Assumptions C12_paren_only_truncates_multivalue_partial.
+(* … and dropped exactly around the single-valued expressions *)
+Theorem C12_paren_only_truncates_multivalue : forall e,
+  norm (EParen e) = norm e <-> multi_valued (norm e) = false.
+Proof. exact paren_only_truncates_multivalue. Qed.
+Print Assumptions C12_paren_only_truncates_multivalue.
 
 (* ---- numerals (manual §3.1 vs ast.NewNumber, integer branch) *)
 (* hexadecimal integer numerals of any length wrap around modulo 2^64 *)
@@ -89,3 +86,17 @@ Print Assumptions C12_numeral_denotation_dec_partial.
 Theorem C12_numeral_denotation_dec_refuted : exists ds, digits_ok 10 ds /\ go_dec ds <> s_dec ds.
 Proof. exact go_dec_refuted. Qed.
 Print Assumptions C12_numeral_denotation_dec_refuted.
+
+(* ---- string literals (manual §3.1) *)
+(* every byte string has a spelling with escapes, and it denotes the string *)
+Theorem C12_unescape_quote_roundtrip :
+  forall s, Forall (fun b => (b < 256)%N) s -> unescape (quote s) = Some s.
+Proof. exact unescape_quote_roundtrip. Qed.
+Print Assumptions C12_unescape_quote_roundtrip.
+
+(* a long bracket of any level with any contents — the empty one included —
+   denotes its contents, line ends normalised, a first line end skipped *)
+Theorem C12_long_bracket_denotation : forall level c,
+  long_denot (long_open level ++ c ++ long_close level) = skip_first_nl (normalize_nl c).
+Proof. exact long_bracket_denotation. Qed.
+Print Assumptions C12_long_bracket_denotation.
